@@ -47,6 +47,7 @@ class Backend:
             self.max_launches_per_component: Optional[int] = None
             self.on_runaway: Optional[Callable[[str, int], None]] = None
             self.closed = False
+            self.current_root = getattr(self, "current_root", None)
 
     def entry_for(self, ref: str, exec_no: int) -> Dict[str, Any]:
         comp = self.script.get("components", {}).get(ref, [])
@@ -202,6 +203,17 @@ class ScriptedTask(experiment.runtime.task.Task):
 
 def _factory(job, outputFile=None, errorFile=None):
     ref = job.reference
+    # an engine of an EARLIER scenario in this process (delayed launch, restart in flight) must neither consume the
+    # current scenario's script nor leave events in its history
+    root = BACKEND.current_root
+    if root is not None:
+        try:
+            if not os.path.realpath(job.workingDirectory.path).startswith(os.path.realpath(root)):
+                raise experiment.runtime.errors.JobLaunchError("stale engine of an earlier scenario", None)
+        except experiment.runtime.errors.JobLaunchError:
+            raise
+        except Exception:
+            pass
     with BACKEND.lock:
         exec_no = BACKEND.exec_count.get(ref, 0)
         BACKEND.exec_count[ref] = exec_no + 1
